@@ -25,6 +25,7 @@ func newBody() *Body {
 }
 
 func (b *Body) appendItem(c nodeContent) *node {
+	b.ensureLineEnd()
 	nn := b.children.Append(c)
 	b.items.Add(nn)
 	return nn
@@ -35,6 +36,29 @@ func (b *Body) appendItemNode(nn *node) *node {
 	b.children.AppendNode(nn)
 	b.items.Add(nn)
 	return nn
+}
+
+// ensureLineEnd appends a newline to the body if its existing content does
+// not already end with one, which is the case for a body parsed from a file
+// that lacks a final newline. Without this, a newly-appended item would
+// continue the last line of the existing content, producing either invalid
+// syntax or an item swallowed by a trailing comment.
+func (b *Body) ensureLineEnd() {
+	for n := b.children.last; n != nil; n = n.before {
+		toks := n.BuildTokens(nil)
+		if len(toks) == 0 {
+			continue
+		}
+		last := toks[len(toks)-1]
+		switch {
+		case last.Type == hclsyntax.TokenNewline:
+		case last.Type == hclsyntax.TokenComment && len(last.Bytes) > 0 && last.Bytes[len(last.Bytes)-1] == '\n':
+			// single-line comments include their terminating newline
+		default:
+			b.AppendNewline()
+		}
+		return
+	}
 }
 
 // Clear removes all of the items from the body, making it empty.
